@@ -145,30 +145,38 @@ def confirm_order():
 
 
 def confirm_runner(sc):
-    """definitions with CFG-stage findings, analysed in some order, some looked up by others first:
-    every finding of a user-file definition must be displayed exactly once."""
+    """definitions with CFG-stage findings (shadowing declarations), a possibly failing lift (variable read
+    before its declaration), stored in the scenario's order, some instantiating (= looking up) another:
+    every such finding of a user-file definition must be displayed exactly once."""
     d = tempfile.mkdtemp(prefix='vreal_', dir=common.CACHE)
     try:
-        src = 'pragma circom 2.0.0;\n'
+        user_src = ''; inc_src = ''
         exp_n = 0
-        for i, df in enumerate(sc['defs']):
-            # a function with `warn` shadowing declarations (CFG-stage warnings); optionally called by template t<i>
-            body = 'function g%d(a) {\n    var r = a;\n' % i
+        tmpl = sc.get('defkind', 'template') == 'template'
+        for df in sc['defs']:
+            i = df['id']
+            body = ''
             for k in range(df.get('cfg_reports', 0)):
-                body += '    if (a == %d) {\n        var r = %d;\n        r += 1;\n    }\n' % (k, k)
-            body += '    return r;\n}\n'
-            if df.get('fails'):
-                body = 'template g%d(a, a) {\n    signal input x;\n    signal output y;\n    y <== x;\n}\n' % i
-                exp_n += 1
+                body += '    var r%d = %d;\n    if (n == %d) {\n        var r%d = %d;\n        r%d += 1;\n    }\n' % (k, k, k, k, k + 1, k)
+            if df.get('fails'): body += '    var q = z;\n    var z = 1;\n'
+            if tmpl:
+                comp = ''
+                l = df.get('looks_up')
+                if l is not None and l != i:
+                    comp = '    component c = d%d(n);\n    c.x <== x;\n' % l
+                src = 'template d%d(n) {\n    signal input x;\n    signal output y;\n%s%s    y <== x;\n}\n' % (i, body, comp)
             else:
-                exp_n += df.get('cfg_reports', 0)
-            src += body
-            for j in df.get('looked_up_by', []):
-                src += 'template t%d_%d() {\n    signal input x;\n    signal output y;\n    y <== x * g%d(2);\n}\n' % (i, j, i)
-        open(os.path.join(d, 'a.circom'), 'w').write(src)
+                src = 'function d%d(n) {\n%s    return n;\n}\n' % (i, body)
+            if df.get('user'):
+                user_src += src
+                exp_n += df.get('cfg_reports', 0) + (1 if df.get('fails') else 0)
+            else: inc_src += src
+        open(os.path.join(d, 'inc.circom'), 'w').write('pragma circom 2.0.0;\n' + inc_src)
+        open(os.path.join(d, 'a.circom'), 'w').write('pragma circom 2.0.0;\ninclude "inc.circom";\n' + user_src)
+        ids = ('CS0001', 'T2003')
         args = [os.path.join(d, 'a.circom'), '--level', 'INFO']
         for x in all_ids():
-            if x not in ('CS0001', 'CS0002'): args += ['--allow', x]
+            if x not in ids: args += ['--allow', x]
         rc, out = run(args, d)
         got = {'displayed': len(headers(out)), 'exit': rc, 'summary': summary(out)}
         exp = {'displayed': exp_n, 'exit': 0 if exp_n == 0 else 1, 'summary': exp_n}
